@@ -226,13 +226,16 @@ def add_spare_types(rng, sj, where="end"):
 
 
 def random_case(rng, mode=None, shared=None, f=None, replace_all=None, pname=None, cell_kind=None, ncopies=None, unwrapped=None,
-                atol=None, hints=None, return_num=None, spare=None):
+                atol=None, hints=None, return_num=None, spare=None, case=None, expect=None):
     """one C04 case: dict(sj, pj, rj, atol, f, replace_all, ignore, seed, hints, return_num, info)"""
     pname = pname or rng.choice([k for k in fl.PATTERNS])
     atol = atol if atol is not None else rng.choice(ATOLS)
     boundary = rng.choice([None, None, "face", "corner"])
-    case = fl.planted_structure(rng, pname=pname, cell_kind=cell_kind, ncopies=ncopies if ncopies is not None else rng.choice([1, 2, 3, 3, 4, 4, 5, 5]),
-                                atol=atol, decoys=rng.random() < 0.5, boundary=boundary)
+    if case is None:
+        case = fl.planted_structure(rng, pname=pname, cell_kind=cell_kind, ncopies=ncopies if ncopies is not None else rng.choice([1, 2, 3, 3, 4, 4, 5, 5]),
+                                    atol=atol, decoys=rng.random() < 0.5, boundary=boundary)
+    else:
+        boundary = case["info"].get("boundary")
     n_out = unwrap_some(rng, case, atol) if (unwrapped if unwrapped is not None else rng.random() < 0.4) else 0
     pe, pp = case["pattern"]["elems"], case["pattern"]["pos"]
     relems, rpos, rinfo = make_replacement(rng, pe, pp, mode=mode, shared=shared, struct_elems=sorted(set(case["elems"])))
@@ -259,7 +262,57 @@ def random_case(rng, mode=None, shared=None, f=None, replace_all=None, pname=Non
     info = dict(case["info"], boundary=boundary, outside=n_out, **rinfo)
     return {"op": "replace-c04", "sj": sj, "pj": pj, "rj": rj, "atol": atol, "f": f, "replace_all": bool(replace_all),
             "ignore": False, "seed": rng.randrange(1 << 30), "hints": [None if h is None else int(h) for h in hints],
-            "return_num": bool(return_num), "rj_src": rj_src, "info": info}
+            "return_num": bool(return_num), "rj_src": rj_src, "info": info, **({"expect": expect} if expect else {})}
+
+
+def distorted_case(rng, regime=None, **kw):
+    """a case that separates the CALLER's tolerance from the search's default 0.05: non-default atol together with
+    planted copies in which ONE atom is displaced radially (along the line from another atom of the copy, so that this
+    one interatomic distance changes by exactly delta) by
+      loose: atol in {.2,.25,.3},  delta in [0.10, atol/2]   -> clearly WITHIN the requested tolerance (margin 2x) yet
+                                                                clearly outside 0.05 (margin 2x)
+      tight: atol in {.01,.02},    delta = 2 .. 2.5 x atol   -> clearly OUTSIDE the requested tolerance yet below 0.05
+    The other copies are exact up to the usual atol/8 jitter.  `expect` = {"in": groups that must be among the matches,
+    "out": groups that must not}: an expectation that depends on the construction only."""
+    import numpy as np
+    regime = regime or rng.choice(["loose", "tight"])
+    if regime == "loose":
+        atol = rng.choice([0.2, 0.25, 0.3])
+        lo, hi = 0.10, atol / 2
+    else:
+        atol = rng.choice([0.01, 0.02])
+        lo, hi = 2.0 * atol, 2.5 * atol if atol == 0.01 else 0.045
+    pname = rng.choice([k for k in fl.PATTERNS if len(fl.PATTERNS[k][0]) >= 2])
+    boundary = rng.choice([None, None, "face", "corner"])
+    case = fl.planted_structure(rng, pname=pname, ncopies=rng.choice([2, 3, 3, 4]), atol=atol, decoys=False, boundary=boundary)
+    case["info"]["boundary"] = boundary
+    cellf = np.array(case["cell"], dtype=float)
+    cinv = np.linalg.inv(cellf)
+    groups = [sorted(grp) for grp in case["planted"]]
+    ndist = rng.randint(1, len(groups)) if regime == "loose" else rng.randint(1, max(1, len(groups) - 1))
+    chosen = rng.sample(range(len(groups)), ndist)
+    pos = [np.array(v, dtype=float) for v in case["pos"]]
+    deltas = []
+    for ci in chosen:
+        grp = groups[ci]
+        k, j = rng.sample(grp, 2)
+        dv = (pos[k] - pos[j]).dot(cinv)
+        dv -= np.round(dv)
+        dv = dv.dot(cellf)
+        delta = rng.uniform(lo, hi)
+        v = pos[k] + delta * dv / np.linalg.norm(dv)
+        fr = v.dot(cinv) % 1.0
+        fr[fr >= 1.0] = 0.0
+        pos[k] = fr.dot(cellf)
+        deltas.append(round(delta, 4))
+    case["pos"] = [[float(x) for x in v] for v in pos]
+    case["info"]["distorted"] = {"regime": regime, "deltas": deltas}
+    dist = [groups[ci] for ci in chosen]
+    rest = [grp for i, grp in enumerate(groups) if i not in chosen]
+    expect = {"in": (dist + rest) if regime == "loose" else rest, "out": [] if regime == "loose" else dist}
+    kw.setdefault("f", rng.choice([1.0, 1.0, 1.0, 0.5, 0.75]))
+    kw.setdefault("mode", rng.choice(["empty", "smaller", "equal", "larger", "larger"]))
+    return random_case(rng, pname=pname, atol=atol, case=case, expect=expect, hints=(None, None, None), **kw)
 
 
 def second_step(rng, inp1, res1, mode=None):
